@@ -155,6 +155,9 @@ func (g *Gen) regionFromSpec(s string, env *Env) ([]string, error) {
 		}
 		for j := 0; j < s.NumFields(); j++ {
 			if s.Field(j).Name() == f[0][i+1:] {
+				if _, esc := g.eng.escapingField(vt.Go, j); esc {
+					return []string{g.cellRegion(s.Field(j).Type()).Key}, nil
+				}
 				return []string{g.fieldRegion(vt.Go, j).Key}, nil
 			}
 		}
@@ -1148,6 +1151,14 @@ func (g *Gen) notFreshOf(r *Region, post Heap) string {
 	alPost := g.heapGet(post, g.allocRegion())
 	if r.Kind == "field" && r.StructTag > 0 {
 		return fmt.Sprintf("(not (select %s r)) (not (= (rtype r) %d))", alPost, r.StructTag)
+	}
+	if r.Kind == "cell" && g.eng.escCells[r.Key] {
+		// a field cell paddr(o, k) can only be new if o is a new object of the struct type that has field k
+		var owners []string
+		for _, o := range g.eng.escOwners[r.Key] {
+			owners = append(owners, fmt.Sprintf("(and (= (pinv2 r) %d) (= (rtype (pinv1 r)) %d))", o[0], o[1]))
+		}
+		return fmt.Sprintf("(not (select %s (own r))) (and (< r 0) (not (or false %s)))", alPost, strings.Join(owners, " "))
 	}
 	return fmt.Sprintf("(not (select %s %s))", alPost, g.ownR(r, "r"))
 }
